@@ -11,13 +11,14 @@ violation.
 import contextlib
 import math
 
-from .. import core, k1, traces, universe as U
+from .. import core, k1, solver, traces, universe as U
 
 ID = "C06"
 MIXMOD = U.pyvaporation.mixtures.mixture
 _REAL_ACT = MIXMOD.calculate_activity_coefficients
 PREC = 1e-10
 TWIN_TOL = 2e-7
+BUDGET = 20000  # slower flux calculations are C10's business; here the pair is simply not judged
 
 
 @contextlib.contextmanager
@@ -56,10 +57,20 @@ def attribute(model, mix, t, x_mass, run_pair, key, msg):
     return [core.viol(key, msg + ": " + bad[0])]
 
 
+def safe(f):
+    """a derived metric; None when the library itself raises on it (e.g. division by a zero permeance)."""
+    try:
+        return f()
+    except RecursionError:
+        raise
+    except Exception:  # noqa: BLE001
+        return None
+
+
 def pv_pair(mix, P, t_ref, ea=(25000.0, 60000.0)):
     sw = U.swap_mixture(mix)
-    a = U.Pervaporation(membrane=U.make_membrane(mix, P[0], P[1], t_ref=t_ref, ea1=ea[0], ea2=ea[1]), mixture=mix)
-    b = U.Pervaporation(membrane=U.make_membrane(sw, P[1], P[0], t_ref=t_ref, ea1=ea[1], ea2=ea[0]), mixture=sw)
+    a = solver.ObservedPV(membrane=U.make_membrane(mix, P[0], P[1], t_ref=t_ref, ea1=ea[0], ea2=ea[1]), mixture=mix).observe(budget=BUDGET, detect=False)
+    b = solver.ObservedPV(membrane=U.make_membrane(sw, P[1], P[0], t_ref=t_ref, ea1=ea[1], ea2=ea[0]), mixture=sw).observe(budget=BUDGET, detect=False)
     return a, b
 
 
@@ -160,14 +171,14 @@ def judge_l2(case):
                     if mode == "vac" or mode[0] == "T":
                         out.append("curve permeances at point %d: %r, twin %r" % (i, (pa_[0].value, pa_[1].value), (pb_[0].value, pb_[1].value)))
                         break
-            sfa, sfb = float(ca.get_separation_factor[i]), float(cb.get_separation_factor[i])
+            sfa, sfb = safe(lambda: float(ca.get_separation_factor[i])), safe(lambda: float(cb.get_separation_factor[i]))
             ya = float(fa[0]) / (float(fa[0]) + float(fa[1]))
-            if 1e-6 < ya < 1 - 1e-6 and not core.close(sfa * sfb, 1.0, 10 * TWIN_TOL):
+            if sfa is not None and sfb is not None and 1e-6 < ya < 1 - 1e-6 and not core.close(sfa * sfb, 1.0, 10 * TWIN_TOL):
                 out.append("curve separation factors at point %d: %r and %r do not invert" % (i, sfa, sfb))
                 break
             if model == "NRTL" and (mode == "vac" or mode[0] == "T"):
-                sa_, sb_ = float(ca.get_selectivity[i]), float(cb.get_selectivity[i])
-                if sa_ > 0 and sb_ > 0 and math.isfinite(sa_) and math.isfinite(sb_) and not core.close(sa_ * sb_, 1.0, 300 * TWIN_TOL):
+                sa_, sb_ = safe(lambda: float(ca.get_selectivity[i])), safe(lambda: float(cb.get_selectivity[i]))
+                if sa_ is not None and sb_ is not None and sa_ > 0 and sb_ > 0 and math.isfinite(sa_) and math.isfinite(sb_) and not core.close(sa_ * sb_, 1.0, 300 * TWIN_TOL):
                     out.append("curve selectivities at point %d: %r and %r do not invert" % (i, sa_, sb_))
                     break
         return out
@@ -186,7 +197,8 @@ def judge_l3(case):
     sw = U.swap_mixture(mix)
     tw.mixture = sw
     tw.membrane = U.make_membrane(sw, case["P"][1], case["P"][0], t_ref=case["T"] + case.get("tref_offset", 0.0), ea1=case["ea"][1], ea2=case["ea"][0])
-    tw.pv = U.Pervaporation(membrane=tw.membrane, mixture=sw)
+    tw.pv = solver.ObservedPV(membrane=tw.membrane, mixture=sw).observe(budget=BUDGET, detect=False)
+    base.pv = solver.ObservedPV(membrane=base.membrane, mixture=mix).observe(budget=BUDGET, detect=False)
     tw.conditions = U.make_conditions(sw, tw.area, tw.t0, tw.amount, tw.x0, "weight", tw.mode, tw.prog)
     state = {"n": 0, "steps": 0}
     tol = TWIN_TOL * 10 * max(1, case["steps"])
@@ -224,9 +236,9 @@ def judge_l3(case):
             if out:
                 break
         if not out:
-            sfa, sfb = pa.get_separation_factor, pb.get_separation_factor
-            sla, slb = pa.get_selectivity, pb.get_selectivity
-            for k in range(ta["n"]):
+            sfa, sfb = safe(lambda: pa.get_separation_factor), safe(lambda: pb.get_separation_factor)
+            sla, slb = safe(lambda: pa.get_selectivity), safe(lambda: pb.get_selectivity)
+            for k in range(ta["n"] if None not in (sfa, sfb, sla, slb) else 0):
                 if not (1e-6 < ta["y"][k] < 1 - 1e-6 and 1e-6 < ta["x"][k] < 1 - 1e-6):
                     continue
                 if not core.close(float(sfa[k]) * float(sfb[k]), 1.0, 100 * tol):
